@@ -37,6 +37,8 @@ BUDGET = {
 
 PORT = 9300
 I16 = st.integers(-2 ** 15, 2 ** 15 - 1)
+# error codes: every code the protocol names (each may be special-cased somewhere), or any int16
+ERR = st.one_of(st.sampled_from([0, 0, 0, -1, 1, 2, 3, 4, 5, 6, 7, 8, 9, 10, 11, 12, 14, 15, 16]), I16)
 I32 = st.integers(-2 ** 31, 2 ** 31 - 1)
 I64 = st.integers(-2 ** 63, 2 ** 63 - 1)
 NAME = st.binary(min_size=1, max_size=40).map(lambda b: b.hex())
@@ -51,12 +53,12 @@ def strategy(tier):
       'payloads': st.one_of(st.lists(payload, max_size=4), st.just([])),
       'acks': st.one_of(I16, st.sampled_from([0, 1, -1])),
       'kw': st.sampled_from(['pos', 'kw', 'default_acks']),
-      'response': st.lists(st.tuples(NAME, st.lists(st.tuples(I32, I16, I64).map(list), max_size=3)).map(list), max_size=3),
+      'response': st.lists(st.tuples(NAME, st.lists(st.tuples(I32, ERR, I64).map(list), max_size=3)).map(list), max_size=3),
   })
-  part = st.tuples(I16, I32, I32, st.lists(I32, max_size=4), st.lists(I32, max_size=4)).map(list)
+  part = st.tuples(ERR, I32, I32, st.lists(I32, max_size=4), st.lists(I32, max_size=4)).map(list)
   meta = st.fixed_dictionaries({
       'brokers': st.lists(st.tuples(I32, NAME, I32).map(list), max_size=4, unique_by=lambda b: b[0]),
-      'topics': st.lists(st.tuples(I16, NAME, st.lists(part, max_size=3, unique_by=lambda p: p[1])).map(list), max_size=3,
+      'topics': st.lists(st.tuples(ERR, NAME, st.lists(part, max_size=3, unique_by=lambda p: p[1])).map(list), max_size=3,
                          unique_by=lambda t: t[1]),
   })
   return st.fixed_dictionaries({
